@@ -40,8 +40,11 @@ MAXCL = 3          # clauses per block
 # ------------------------------------------------------------------------------------------ enumeration
 # An alphabet A is the pair (conds, kinds): conds = condition letters allowed on @case lines; kinds = True admits
 # modifications and property lines in addition to plain definitions.
-STATIC = (("T", "F"), False)
-FULL = (("T", "F", "P", "Q"), True)
+# A third component holds flags: "s" admits the two-line `$source` + import placeholder ("s",), "n" forbids groups.
+STATIC = (("T", "F"), False, "")
+FULL = (("T", "F", "P", "Q"), True, "")
+HOST = (("T", "F"), False, "s")        # documents that declare and import a remote source (exactly one placeholder)
+REMOTE = (("T", "F"), False, "n")      # the remote documents
 
 
 def _compositions(total, parts):
@@ -135,7 +138,9 @@ def items(k, bd, ing, A):
         for h in block_headers(k - 2, bd, A):
             for blk in blocks_of(h, bd, ing, A):
                 yield ("q", blk)
-    if k >= 2 and not ing:
+    if k == 2 and "s" in A[2]:
+        yield ("s",)
+    if k >= 2 and not ing and "n" not in A[2]:
         for s in seqs(k - 1, bd, True, A):
             yield ("g", s)
     for h in block_headers(k, bd, A):
@@ -191,6 +196,28 @@ def programs(n, bd, A):
 
 
 # ------------------------------------------------------------------------------------------ rendering + reference
+# Literal conditions written as expressions over a node `c int = 5` that is defined in front of the program and never
+# modified: (true instance, false instance) of every comparison operator and of && / || / ~ combinations whose final
+# value comes from each of them.
+COND_FORMS = {
+    "eq": ("{?c} == 5", "{?c} == 4"),
+    "ne": ("{?c} != 4", "{?c} != 5"),
+    "lt": ("{?c} < 6", "{?c} < 5"),
+    "gt": ("{?c} > 4", "{?c} > 5"),
+    "le": ("{?c} <= 5", "{?c} <= 4"),
+    "ge": ("{?c} >= 5", "{?c} >= 6"),
+    "le2": ("{?c} <= 6", "{?c} <= 3"),
+    "ge2": ("{?c} >= 4", "{?c} >= 7"),
+    "and": ("{?c} > 4 && {?c} <= 5", "{?c} >= 5 && {?c} <= 4"),
+    "and2": ("{?c} <= 5 && {?c} >= 5", "{?c} <= 4 && {?c} >= 5"),
+    "or": ("{?c} <= 4 || {?c} >= 5", "{?c} < 4 || {?c} >= 6"),
+    "or2": ("{?c} >= 5 || {?c} <= 4", "{?c} >= 6 || {?c} <= 4"),
+    "not": ("~({?c} <= 4)", "~({?c} >= 5)"),
+    "not2": ("~({?c} > 5)", "~({?c} < 6)"),
+}
+COND_NODE = ((0, "c int = 5"), {"c": 5})
+
+
 class Invalid(Exception):
     """the AST is outside the alphabet (unresolvable / duplicate modification target, condition without v1, ...)"""
 
@@ -207,12 +234,17 @@ class Walk:
     decision here - the renderer only has to make sure the *text* has exactly that reading under the statement's rule.
     """
 
-    def __init__(self, prog, gorder="asc", root="int"):
+    def __init__(self, prog, gorder="asc", root="int", cform=None, px="v", remote=None, srcfile=None):
         """root: "int"   line 1 is `v1 int = 1`, P/Q are the expressions `("{?v1} == 1")` / `("{?v1} != 1")`
                  "boolT" line 1 is `v1 bool = true`,  P is the bare reference `@case {?v1}` (no Q allowed)
                  "boolF" line 1 is `v1 bool = false`, Q is the bare reference `@case {?v1}` (no P allowed)
            In the bool variants a modification of v1 writes the negated initial value, so P (true until v1 is
            modified) and Q (true once v1 is modified) keep their meaning; only the *form* of the condition differs."""
+        self.cform = cform         # write literal conditions as comparison expressions over node `c` (COND_FORMS)
+        self.px = px               # name prefix of the definitions ("v<line>")
+        self.remote = remote       # Walk of the remote document imported by the ("s",) item
+        self.srcfile = srcfile
+        self.nsources = 0
         self.root = root
         self.root_initial = {"int": 1, "boolT": True, "boolF": False}[root]
         self.bare_refs = 0
@@ -229,6 +261,8 @@ class Walk:
         self.root_def = None       # (name,) of a definition on line 1
         self.uses_root = False
         self.root_modified = False
+        self.source_in_effect = False
+        self.imported = set()      # names that came from the remote document
         self.accepted = 0          # number of typed nodes that took effect so far
         self.ref_defs = False
         self.depth_max = 0
@@ -256,7 +290,7 @@ class Walk:
             kind = it[0]
             if kind == "d":
                 ln = self._emit(ind, None)
-                name = "v%d" % ln
+                name = "%s%d" % (self.px, ln)
                 val = ln
                 if it[1] == 2:
                     if self.root_def is None or self.root != "int":
@@ -319,11 +353,29 @@ class Walk:
                     self.probe_in_or_after_block = True
                 self.feat.add("modification")
                 self._tally(eff, 1)
+            elif kind == "s":
+                # `$source s = <file>` and, at the same indentation, the import of all its nodes: when the two lines
+                # take effect the remote document is parsed as a document of its own and its parameters appear
+                # below the current group path
+                self.nsources += 1
+                self._emit(ind, "$source s = %s" % self.srcfile)
+                self._emit(ind, "{s?*}")
+                if eff:
+                    for rname, rval in self.remote.data.items():
+                        self.imported.add(".".join(gpath + (rname,)))
+                        self.data[".".join(gpath + (rname,))] = rval
+                        self.effective_values.add(rval)
+                    self.accepted += len(self.remote.data)
+                    self.source_in_effect = True
+                if self.nblocks:
+                    self.probe_in_or_after_block = True
+                self.feat.add("source-import")
+                self._tally(eff, 2)
             elif kind == "u":
                 ln = self._emit(ind, None)
                 self.lines[-1] = (ind, "$unit u%d = 5 cm" % ln)
-                ln2 = self._emit(ind, "v%d float = %d [u%d]" % (ln + 1, ln + 1, ln))
-                full = ".".join(gpath + ("v%d" % ln2,))
+                ln2 = self._emit(ind, "%s%d float = %d [u%d]" % (self.px, ln + 1, ln + 1, ln))
+                full = ".".join(gpath + ("%s%d" % (self.px, ln2),))
                 self.def_lines[ln2 - 1] = full
                 if eff:
                     self.data[full] = ln2
@@ -335,7 +387,7 @@ class Walk:
                 self._tally(eff, 2)
             elif kind == "q":
                 ln = self._emit(ind, None)
-                name = "v%d" % ln
+                name = "%s%d" % (self.px, ln)
                 self.lines[-1] = (ind, "%s int = %d" % (name, ln))
                 full = ".".join(gpath + (name,))
                 self.def_lines[ln - 1] = full
@@ -375,6 +427,9 @@ class Walk:
             self.skipped_lines += n
 
     def _cond(self, c):
+        if c in "TF" and self.cform:
+            self.feat.add("comparison-condition")
+            return '("%s")' % COND_FORMS[self.cform][c == "F"], c == "T"
         if c == "T":
             return "true", True
         if c == "F":
@@ -423,7 +478,7 @@ class Walk:
         verdict, info, _ = flat_reference(tuple(self.flat))
         if verdict != "ok":
             return False
-        return {self.def_lines[p] for p in info if p in self.def_lines} == set(self.data)
+        return {self.def_lines[p] for p in info if p in self.def_lines} == set(self.data) - self.imported
 
 
 def text_of(lines, unit=2):
